@@ -251,6 +251,7 @@ func c18r5(r *R) {
 		}
 	}
 	checkTable(r, "C18.R5", "hpack_use_in_server", rows, "HPACK use step")
+	decoderLimitMatchesAdvertisement(r)
 	// the decoder is closed after every header block, whether or not the block was valid (otherwise the next block is parsed as a continuation)
 	o := r.Ob("C18.R5", "decoder-closed-per-block:"+funcName(rm)).At(rm.Pos())
 	cl := callsIn(rm, "(*golang.org/x/net/http2/hpack.Decoder).Close")
@@ -270,4 +271,67 @@ func c18r5(r *R) {
 
 func inLoopRegionBefore(mark, i ssa.Instruction) bool {
 	return !reachesAfter(mark, i) && !instrDominates(mark, i) && reachesAfter(i, mark)
+}
+
+// decoderLimitMatchesAdvertisement: the size the server's HPACK decoder is created with is the size it advertises in
+// SETTINGS_HEADER_TABLE_SIZE (the same configuration field), and nothing on the server side changes the decoder's limits
+// afterwards. Otherwise the dynamic table can grow beyond what was permitted and stale indices decode.
+func decoderLimitMatchesAdvertisement(r *R) {
+	c := r.C
+	sv := c.Method("pkg/http2", "Server", "serveConn")
+	serve := c.Method("pkg/http2", "serverConn", "serve")
+	r.need(sv != nil && serve != nil, "Server.serveConn / serverConn.serve not found")
+	o := r.Ob("C18.R5", "decoder-limit-is-advertised-limit:"+funcName(sv)).At(sv.Pos())
+	fr := c.Named("pkg/http2", "Framer")
+	confE := ""
+	n := 0
+	for _, a := range fieldAccesses(c.FuncsIn("pkg/http2"), fr, "ReadMetaHeaders") {
+		if a.Kind != "write" || strings.HasPrefix(c.Pos(a.Fn.Pos()), "pkg/http2/transport.go") {
+			continue
+		}
+		n++
+		e := c.Expr(a.Instr.(*ssa.Store).Val)
+		o.AtI(a.Instr)
+		const pre, suf = "golang.org/x/net/http2/hpack.NewDecoder(", ".MaxDecoderHeaderTableSize, nil)"
+		if o.Check(a.Fn == sv && strings.HasPrefix(e, pre) && strings.HasSuffix(e, suf), "the server's header decoder is %s (set in %s), want hpack.NewDecoder(conf.MaxDecoderHeaderTableSize, nil) in serveConn", e, funcName(a.Fn)) {
+			confE = strings.TrimSuffix(strings.TrimPrefix(e, pre), suf)
+		}
+	}
+	o.Check(n == 1, "expected one server-side store to Framer.ReadMetaHeaders, found %d", n)
+	// the same conf value is handed to serve()
+	for _, s := range callsIn(sv, "(*http2.serverConn).serve") {
+		a := callOf(s).Args
+		o.AtI(s).Check(len(a) == 2 && c.Expr(a[1]) == confE, "serve() is given %s, the decoder was sized from %s", c.Expr(a[len(a)-1]), confE)
+	}
+	// the initial SETTINGS literal advertises p1.MaxDecoderHeaderTableSize under id 1
+	ids, vals := map[string]string{}, map[string]string{}
+	eachInstr(serve, func(i ssa.Instruction) {
+		if st, ok := i.(*ssa.Store); ok {
+			ae := c.Expr(st.Addr)
+			if strings.HasPrefix(ae, "&slicelit[") {
+				k := ae[:strings.Index(ae, "]")+1]
+				if strings.HasSuffix(ae, ".ID") {
+					ids[k] = c.Expr(st.Val)
+				} else if strings.HasSuffix(ae, ".Val") {
+					vals[k] = c.Expr(st.Val)
+				}
+			}
+		}
+	})
+	adv := ""
+	for k, id := range ids {
+		if id == "1" {
+			adv = vals[k]
+		}
+	}
+	o.Check(adv == "p1.MaxDecoderHeaderTableSize", "SETTINGS_HEADER_TABLE_SIZE advertises %q, want conf.MaxDecoderHeaderTableSize (the decoder's size)", adv)
+	// nobody re-limits the decoder on the server side
+	for _, fn := range c.FuncsIn("pkg/http2") {
+		if strings.HasPrefix(c.Pos(fn.Pos()), "pkg/http2/transport.go") {
+			continue
+		}
+		for _, s := range callsIn(fn, "(*golang.org/x/net/http2/hpack.Decoder).SetMaxDynamicTableSize", "(*golang.org/x/net/http2/hpack.Decoder).SetAllowedMaxDynamicTableSize") {
+			o.AtI(s).Fail("%s changes the header decoder's table limit after construction (%s)", funcName(fn), calleeName(callOf(s)))
+		}
+	}
 }
